@@ -10,7 +10,7 @@ META = {
                 "functions)", "window / wsymm StrategyDicts and their .periodic / .symm cross links and aliases"],
   "bounds": {"quick": "sizes 1..8 (case-split; the size stays an exact symbolic-constant integer inside the formulas), blackman "
                       "alpha symbolic in [0, 1/4], cos alpha in {1, 2, 3}; overlap sums for hop=size/2 and size/4 where size allows",
-             "thorough": "sizes 1..12 (blackman 1..10, cos 1..10 / 1..8 / 1..8 for alpha 1 / 2 / 3)"},
+             "thorough": "sizes 1..12 (hamming and blackman 1..10, cos 1..10 / 1..8 / 1..8 for alpha 1 / 2 / 3)"},
   "outside": "IEEE exactness beyond congruence (e.g. window.blackman(4)[0] evaluates to -1.4e-17 in floats; exact value 0), "
              "non-integer alpha of the cos window, blackman alpha above 1/4 (the window leaves [0,1] there)",
   "stubs": ["cos/sin/pi inside each generated function's globals: pi is an exact 'q*pi' object, cos/sin of rational multiples of pi "
@@ -183,7 +183,8 @@ def tasks(tier, seed):
   N = 12 if big else 8
   T = []
   for name in ("hann", "hamming", "rect", "bartlett", "triangular"):
-    T.append(("h_window", {"name": name, "N": N}))
+    # hamming: the range obligations of wsymm at sizes 11-12 met the 90 s solver cap in the last thorough run
+    T.append(("h_window", {"name": name, "N": min(N, 10) if name == "hamming" else N}))
   # blackman needs the double-angle links: nlsat time grows quickly with the number of distinct angles
   T.append(("h_window", {"name": "blackman", "N": 10 if big else 8}, {"path_s": 400} if big else {}))
   T.append(("h_window", {"name": "blackman", "N": 10 if big else 8, "alpha": "default"}, {"path_s": 400} if big else {}))
